@@ -21,7 +21,7 @@ RULE = ('Rule sets in most_specific mode assembled from components with known ra
 ASSUMPTIONS = ['admissible readings: constraint kinds = 8 keywords (weekday once or as day+weekday) or 4 groups; pattern text = all string '
                'literals or only pattern-call arguments; a case is asserted only where all readings agree (others counted as ambiguous)',
                'pattern texts contain no escapes or quotes so that source length = value length']
-REQUIRED_CLASSES = ['kind_used_twice', 'priority_decides', 'pattern_count_decides', 'constraints_decide', 'length_decides', 'exact_tie', 'keyword_in_text',
+REQUIRED_CLASSES = ['mode_switch_on_same_file', 'kind_used_twice', 'priority_decides', 'pattern_count_decides', 'constraints_decide', 'length_decides', 'exact_tie', 'keyword_in_text',
                     'same_match_diff_priority', 'subcategory_from_other_rule']
 
 DESC = 'HOLIDAY INN PAYDAY LOAN AMOUNT DUE SOURCE UBER EATS 4521 FIELD TRIP'
@@ -205,6 +205,16 @@ def check(case, stats: Stats):
     # one pipeline observation (rule_mode passed through get_all_rules)
     text = R.render_file(rf0)
     path = obs.write_rules(text)
+    # the same file is first loaded the way a caller that does not state a mode loads it (get_transforms' default), then in most_specific mode:
+    # the mode that decides is the one the rules were loaded with last
+    from tally.merchant_utils import get_all_rules, get_transforms
+    if len(jhash(case)) and int(jhash(case)[:2], 16) % 2 == 0:
+        try:
+            get_transforms(path)
+            get_all_rules(path)
+        except Exception as e:
+            raise Violation(f'loading the generated file raised {type(e).__name__}: {e}\n{text}', case, 'load-fails')
+        classes.add('mode_switch_on_same_file')
     b = obs.pipeline_classify(path, txn, rows, mode='most_specific')
     eng = obs.load_engine(text, 'most_specific')
     a = obs.engine_classify(eng, txn, rows)
